@@ -607,14 +607,22 @@ func (a *align) RefSites(name string, sites []int) (refsites []int, err error) {
 		return
 	}
 
+	// length of the reference sequence without gaps
+	reflen := 0
+	for _, site = range seq {
+		if site != GAP {
+			reflen++
+		}
+	}
+
 	mappos := make(map[int]bool)
 	for _, s := range sites {
 		if s < 0 {
 			err = fmt.Errorf("site on reference sequence must be > 0 : %d", s)
 			return
 		}
-		if s >= a.Length() {
-			err = fmt.Errorf("site is outside alignment : %d", s)
+		if s >= reflen {
+			err = fmt.Errorf("site is outside reference sequence : %d", s)
 			return
 		}
 		mappos[s] = true
